@@ -169,7 +169,7 @@ def mirror(prop, r):
 
 FAMILIES = {
     # family: (MaxRank quick, MaxRank thorough, kinds)
-    "mixorder": (2, 2, ["rr"]), "realinto": (2, 2, ["rc"]), "special": (2, 2, ["rr"]), "extend": (2, 2, ["rr"]), "helper": (3, 3, ["rr"]), "argsweep": (2, 2, ["rr"]), "index": (2, 3, ["rr"]), "kink": (2, 2, ["rr"]), "linalg": (3, 3, ["rr"]), "fft": (3, 3, ["rr"]), "join": (3, 3, ["rr"]), "contract": (3, 3, ["rr"]), "rearr": (3, 3, ["rr"]), "binary": (3, 4, ["rr"]), "where": (2, 2, ["rr"]), "reduce": (3, 4, ["rr"]), "cum": (3, 3, ["rr"]), "unary": (2, 2, ["rr"]),
+    "empty": (2, 2, ["rr"]), "mixorder": (2, 2, ["rr"]), "realinto": (2, 2, ["rc"]), "special": (2, 2, ["rr"]), "extend": (2, 2, ["rr"]), "helper": (3, 3, ["rr"]), "argsweep": (2, 2, ["rr"]), "index": (2, 3, ["rr"]), "kink": (2, 2, ["rr"]), "linalg": (3, 3, ["rr"]), "fft": (3, 3, ["rr"]), "join": (3, 3, ["rr"]), "contract": (3, 3, ["rr"]), "rearr": (3, 3, ["rr"]), "binary": (3, 4, ["rr"]), "where": (2, 2, ["rr"]), "reduce": (3, 4, ["rr"]), "cum": (3, 3, ["rr"]), "unary": (2, 2, ["rr"]),
 }
 COMPLEX_FAMILIES = {"realinto": (2, 2, ["rc"]), "linalg": (2, 3, ["cc"]), "fft": (3, 3, ["rr", "cc"]), "contract": (2, 3, ["cc", "cr", "rc"]), "binary": (2, 3, ["cc", "cr", "rc"]), "reduce": (2, 3, ["cc"]), "unary": (2, 2, ["cc"])}
 
@@ -362,6 +362,13 @@ def c06(tier, seed, replay=None):
     v1.violations += v2.violations
     for k, n in v2.known_hits.items():
         v1.known_hits[k] = v1.known_hits.get(k, 0) + n
+    from checks import algebra
+    lay = algebra.c06_layers(v1, seed)
+    cov["states"] += lay["states"]
+    cov["transitions"] += lay["transitions"]
+    cov["traces_validated_against_impl"] += lay["operator_cases"] + lay["container_cases"]
+    cov["evaluations"] += lay["operator_cases"] + lay["container_cases"]
+    cov["operators_and_containers"] = lay
     rc = v1.finish()
     vlib.write_evidence("C06", tier, seed, "model_checking", cov, ASSUME + agm.ASSUME, time.time() - t0, len(v1.violations))
     return rc
